@@ -57,6 +57,10 @@ func (e *daemonEngine) onDKGSave(n *dNode, finished bool, st *dkg.DBState) {
 	cp := *st
 	if finished {
 		tr.fin = &cp
+		if n.finishedAt == nil {
+			n.finishedAt = map[uint32]time.Time{}
+		}
+		n.finishedAt[st.Epoch] = time.Now() // the key-generation code reads the unskewed clock, too
 	}
 	tr.cur = &cp
 	n.mu.Unlock()
